@@ -68,12 +68,12 @@ def partsOf (k : Nat) (evs : List CEv) : List CEv := evs.filter (fun ev => membe
 
 theorem partsOf_cons_self {k : Nat} {ev : CEv} (h : memberKey ev = some k) (rest : List CEv) :
     partsOf k (ev :: rest) = ev :: partsOf k rest := by
-  simp [partsOf, List.filter_cons, h]
+  simp [partsOf, h]
 
 theorem partsOf_cons_other {k : Nat} {ev : CEv} (h : memberKey ev ≠ some k) (rest : List CEv) :
     partsOf k (ev :: rest) = partsOf k rest := by
   have : (memberKey ev == some k) = false := by simpa using h
-  simp [partsOf, List.filter_cons, this]
+  simp [partsOf, this]
 
 theorem mem_partsOf {k : Nat} {evs : List CEv} {p : CEv} :
     p ∈ partsOf k evs ↔ p ∈ evs ∧ memberKey p = some k := by
@@ -574,5 +574,33 @@ theorem outsOfKey_specOut {D : Nat → Option SeqData} {k : Nat} {d : SeqData} (
         intro p hp
         exact hpartsfresh p hp
       rw [hhead, List.nil_append, ih]
+
+
+/-- every output is a passed non-member or the rewritten slice of some part -/
+theorem specOut_classified {D : Nat → Option SeqData} : ∀ (l : List CEv), ∀ o ∈ specOut D l,
+    (∃ ev ∈ l, memberKey ev = none ∧ o = COut.pass ev) ∨
+    (∃ ev ∈ l, ∃ k d, memberKey ev = some k ∧ o = mergedEv ev d)
+  | [], o, ho => by simp [specOut] at ho
+  | ev :: rest, o, ho => by
+    rw [specOut_cons] at ho
+    rcases List.mem_append.mp ho with ho | ho
+    · unfold headOut at ho
+      cases hm : memberKey ev with
+      | none =>
+        simp [hm] at ho
+        exact Or.inl ⟨ev, by simp, hm, ho⟩
+      | some k =>
+        simp only [hm] at ho
+        by_cases he : (partsOf k rest).isEmpty = true
+        · simp only [he, if_true] at ho
+          cases hD : D k with
+          | none => simp [hD] at ho
+          | some d =>
+            simp [hD] at ho
+            exact Or.inr ⟨ev, by simp, k, d, hm, ho⟩
+        · simp [he] at ho
+    · rcases specOut_classified rest o ho with ⟨e, he, h1, h2⟩ | ⟨e, he, k, d, h1, h2⟩
+      · exact Or.inl ⟨e, List.mem_cons_of_mem _ he, h1, h2⟩
+      · exact Or.inr ⟨e, List.mem_cons_of_mem _ he, k, d, h1, h2⟩
 
 end AiuVerif.Comm
